@@ -108,6 +108,7 @@ class Rig:
         self.gwy: Any = None
         self.air: airmod.Air | None = None
         self.trail: list[str] = []
+        self.fed: list[tuple[str, str]] = []  # (receive time, frame) of everything put on the wire
         self.n_marker = 0
         self.clock_us = 0
 
@@ -126,6 +127,8 @@ class Rig:
     async def feed(self, dtm: str, frame: str) -> None:
         self.trail.append(frame)
         if self.stack == "file":
+            self.fed.append((dtm, frame))
+        if self.stack == "file":
             self.last_dtm = dtm
             try:
                 self.gwy._transport._frame_read(dtm, frame)
@@ -137,6 +140,7 @@ class Rig:
             assert self.air is not None
             port = self.gwy._vrf_port
             await self.wait_gap(dtm)
+            self.fed.append((self.loop.now_dt().isoformat(timespec="microseconds"), frame))
             port.stage_line(frame)
             await asyncio.sleep(0.02)
             await vloop.drain(self.loop, 6)
